@@ -155,6 +155,22 @@ var operators = []map[string]tokType{
 		"~>": tokBacon,
 		",":  tokComma,
 	},
+
+	// TODO: Investigate Composer's constraint semantics further. Until
+	// then it accepts the operators of the default system; the entry must
+	// exist because the table is indexed by System.
+	Composer: {
+		"=":  tokEqual,
+		">":  tokGreater,
+		">=": tokGreaterEqual,
+		"<":  tokLess,
+		"<=": tokLessEqual,
+		"^":  tokCaret,
+		"~":  tokTilde,
+		",":  tokComma,
+		"||": tokOr,
+		"-":  tokHyphen,
+	},
 }
 
 func (sys System) typeOf(r rune) uint8 {
